@@ -76,12 +76,14 @@ def flatten_family(decls):
 
 
 # ------------------------------------------------------------------------------ realisations
+_uniq = [0]
+
+
 class Realm:
     """pydantic classes for descriptions; the cache lives as long as the realm does"""
 
     def __init__(self):
         self.cache = {}
-        self.n = 0
 
     def _fns(self, h2f, f2h):
         ns = {}
@@ -96,7 +98,7 @@ class Realm:
         from rpft.parsers.common.rowparser import ParserModel
         key = id(t)
         if key not in self.cache:
-            self.n += 1
+            _uniq[0] += 1
             ns = self._fns(t[3] or None, t[4] or None)
             ann = {}
             for (n, ft, d) in t[2]:
@@ -104,7 +106,7 @@ class Realm:
                 if d is not REQUIRED:
                     ns[n] = self.instance(ft, d)
             ns["__annotations__"] = ann
-            name = f"{t[1]}_{self.n}" if unique else t[1]
+            name = f"{t[1]}_fresh{_uniq[0]}" if unique else t[1]      # never the name of another class of this process
             self.cache[key] = (t, type(name, (ParserModel,), ns))
         return self.cache[key][1]
 
@@ -197,13 +199,13 @@ def gen_family(rng, stats):
         decls.append(d)
         flat[:] = flatten_family(decls)
 
-    def gen_root(name, depth, nmin, nmax, names=None):
+    def gen_root(name, depth, nmin, nmax, names=None, remap_p=0.25):
         names = names or rng.sample(rowgen.NAMES, rng.randint(nmin, nmax))
         body = []
         for n in names:
             t = _gen_field_ty(rng, decls, depth)
             body.append((n, t, _gen_default_for(rng, flat_ty(t, flat), plain=0.6)))
-        h2f, f2h = _gen_remaps(rng, names) if rng.random() < 0.25 else ({}, {})
+        h2f, f2h = _gen_remaps(rng, names) if rng.random() < remap_p else ({}, {})
         push(dict(kind="root", name=name, parent=None, body=body, h2f=h2f, f2h=f2h))
 
     def gen_derived(name, p):
@@ -214,8 +216,8 @@ def gen_family(rng, stats):
             over = [rng.choice(pf)]
         for (n, ft, d) in over:
             t = ft
-            if rng.random() < 0.1:
-                t = rng.choice([STR, INT, BOOL, FLOAT])                 # the type changes too
+            if rng.random() < 0.15:
+                t = rng.choice([STR, INT, BOOL, FLOAT, ("list", STR)])  # the type changes too
                 stats["overrides_type"] = stats.get("overrides_type", 0) + 1
             body.append((n, t, _gen_default_for(rng, t, avoid=d, plain=0.35)))
             stats["overridden_fields"] = stats.get("overridden_fields", 0) + 1
@@ -225,8 +227,24 @@ def gen_family(rng, stats):
             t = _gen_field_ty(rng, decls, 1)
             body.append((n, t, _gen_default_for(rng, flat_ty(t, flat))))
         h2f = f2h = None
-        if rng.random() < 0.15:
-            h2f, f2h = _gen_remaps(rng, have + [b[0] for b in body if b[0] not in have])
+        all_names = have + [b[0] for b in body if b[0] not in have]
+        pf2h = flat[p][4]
+        if pf2h and rng.random() < 0.6:
+            # the parent renames a field: the derived class re-defines the renaming IN CONFLICT with it
+            fn, h = next(iter(pf2h.items()))
+            mode = rng.choice(["repoint", "repoint", "drop", "rename"])
+            others = [n for n in all_names if n != fn]
+            if mode == "repoint" and others:
+                o = rng.choice(others)
+                h2f, f2h = {h: o}, {o: h}           # the same header now names ANOTHER field
+            elif mode == "rename":
+                h2 = rng.choice([x for x in ["hdr", "H", "alias", "from"] if x != h and x not in all_names] or ["H2"])
+                h2f, f2h = {h2: fn}, {fn: h2}       # the same field under another header
+            else:
+                h2f, f2h = {}, {}                   # no renaming any more
+            stats["redefines_remap_in_conflict"] = stats.get("redefines_remap_in_conflict", 0) + 1
+        elif rng.random() < 0.15:
+            h2f, f2h = _gen_remaps(rng, all_names)
             if rng.random() < 0.3:
                 h2f = None                              # only one of the two functions re-defined
             stats["redefines_remap"] = stats.get("redefines_remap", 0) + 1
@@ -240,7 +258,7 @@ def gen_family(rng, stats):
         else:
             gen_root(f"Sub{i}", 0, 1, 3)
     first_top = len(decls)
-    gen_root("M", rng.choice([0, 1, 1, 2]), 2, 5)
+    gen_root("M", rng.choice([0, 1, 1, 2]), 2, 5, remap_p=0.4)
     for i in range(rng.choice([1, 1, 2, 2, 3])):
         r = rng.random()
         tops = list(range(first_top, len(decls)))
@@ -704,6 +722,45 @@ def probe_example(ctx, st):
             ctx.disagree("the session of C07_session_nonvacuous_run: step result", _show_op(fam.flat, op), w, res)
 
 
+def probe_rekeyed_padding(ctx, st):
+    """Directed probe of the finding sheet-padding-cell-rekeyed-onto-written-column (found by the flow file leg when
+    this stream shifted its random choices): a send_message row followed by a call_webhook row with a body, exported
+    and re-read.  Silent on a tree where the row survives."""
+    import c07
+    from rpft.parsers.common.cellparser import CellParser
+    from rpft.parsers.common.rowdatasheet import RowDataSheet
+    from rpft.parsers.common.rowparser import RowParser
+    from rpft.parsers.common.sheetparser import SheetParser
+    from rpft.parsers.creation.flowrowmodel import Edge, FlowRowModel, Webhook
+    from rpft.parsers.sheets import CSVSheetReader
+
+    def leg():
+        rows = [FlowRowModel(row_id="1", type="send_message", edges=[Edge(from_="start")], mainarg_message_text="hi"),
+                FlowRowModel(row_id="2", type="call_webhook", edges=[Edge(from_="1")],
+                             webhook=Webhook(url="http://x", method="POST", body="payload"))]
+        parser = RowParser(FlowRowModel, CellParser())
+        d = tempfile.mkdtemp(prefix="rpftc07k")
+        try:
+            RowDataSheet(parser, rows, {"edges.*.condition"}, set()).export(os.path.join(d, "flow.csv"))
+            back = SheetParser(parser, CSVSheetReader(d).get_sheet("flow").table).parse_all()
+        finally:
+            shutil.rmtree(d, ignore_errors=True)
+        return [rowlib.natives(r) for r in rows], [rowlib.natives(r) for r in back]
+
+    ctx.v.coverage["evaluations"] += 1
+    r = run_cli_mode(leg)
+    st["rekeyed_padding_probe"] = 1
+    if r[0] != "ok":
+        ctx.v.failing_input("file-roundtrip-csv", f"send_message + call_webhook rows through csv: {r!r}", dict(fn="file", rows=[], fmt="csv"))
+        return
+    rows, back = r[1]
+    if not c07._deep_eq(rows, back):
+        lost = len(back) == 2 and back[1]["webhook"]["body"] == "" and c07._deep_eq(back[0], rows[0])
+        ctx.v.failing_input("sheet-padding-cell-rekeyed-onto-written-column" if lost else "file-roundtrip-csv",
+                            f"send_message + call_webhook(body='payload') rows through csv read back as {back!r}"[:3000],
+                            dict(fn="file", rows=rows, fmt="csv"))
+
+
 # ------------------------------------------------------------------------------ the stream
 def run_sessions(ctx, stats):
     rng, v, m = ctx.rng, ctx.v, ctx.model
@@ -714,6 +771,7 @@ def run_sessions(ctx, stats):
           "error_results": 0, "differs_from_isolation": 0, "model_steps_compared": 0, "model_unsupported": 0,
           "session_lengths": {}, "generator_rejects": 0}
     probe_example(ctx, st)
+    probe_rekeyed_padding(ctx, st)
     history = []           # every session so far (a failure that needs MORE than its own session is replayed from here)
     for s in range(n_sessions):
         try:
